@@ -176,10 +176,12 @@ TraceNext ==
             /\ resp' = R0
             /\ rep' = rep
             /\ saved' = <<>>
-       ELSE IF line.kind = "save"
-       THEN /\ saved' = <<st>> /\ UNCHANGED <<st, cfg, resp, rep>>
-       ELSE IF line.kind = "restore"
-       THEN /\ st' = saved[1] /\ UNCHANGED <<cfg, resp, rep, saved>>
+       ELSE IF line.kind = "save"       \* fork: push the current state
+       THEN /\ saved' = Append(saved, st) /\ UNCHANGED <<st, cfg, resp, rep>>
+       ELSE IF line.kind = "restore"    \* back to the innermost saved state (kept for further variants)
+       THEN /\ st' = saved[Len(saved)] /\ UNCHANGED <<cfg, resp, rep, saved>>
+       ELSE IF line.kind = "drop"       \* the innermost fork is finished
+       THEN /\ saved' = SubSeq(saved, 1, Len(saved) - 1) /\ UNCHANGED <<st, cfg, resp, rep>>
        ELSE StepLine(line)
 
 TraceSpec == TraceInit /\ [][TraceNext]_tvars
